@@ -1,9 +1,7 @@
 //@unit derived_window
 //@include head.rs
+//@export-begin
 
-pub open spec fn id_fn() -> spec_fn(R) -> real { |x: R| x@ }
-pub open spec fn pos_fn() -> spec_fn(R) -> real { |x: R| rmax(x@, 0real) }
-pub open spec fn neg_fn() -> spec_fn(R) -> real { |x: R| rmax(-x@, 0real) }
 
 // ------------------------------------------------------------------ LinearVolatility
 //@extract src/methods/volatility.rs struct:LinearVolatility
@@ -136,5 +134,6 @@ impl Method for Vidya {
 	}
 //@end
 }
+//@export-end
 } // verus!
 fn main() {}
